@@ -25,6 +25,8 @@ pub enum PrevUse {
     Ignore,
     Read,
     Modify(u8),
+    /// assign a whole new value to the previous output (the old one is dropped by the assignment)
+    Replace(u8),
 }
 
 #[derive(Clone, Copy, Debug, Serialize, Deserialize, PartialEq, Eq, Hash)]
@@ -45,6 +47,9 @@ pub enum FailKind {
     PanicAfterBuild,
     /// panic after modifying the previous output
     PanicAfterPrevModified,
+    /// panic / Err after assigning a whole new value to the previous output
+    PanicAfterPrevReplaced,
+    ErrAfterPrevReplaced,
 }
 
 #[derive(Clone, Debug, Serialize, Deserialize, PartialEq, Eq, Hash)]
@@ -110,13 +115,36 @@ fn converter<T: Elem, U: Elem>(t: T, prev: Option<&mut U>) -> Result<VecElementC
             }
             panic_any(Payload(0xAB_0000 + index as u64))
         }
+        Some(FailKind::PanicAfterPrevReplaced) | Some(FailKind::ErrAfterPrevReplaced) => {
+            if let Some(u) = prev {
+                let v = u.val();
+                *u = U::make(v.wrapping_add(0x77));
+            }
+            if fail == Some(FailKind::ErrAfterPrevReplaced) {
+                return Err(ErrTok(0xEA_0000 + index as u64));
+            }
+            panic_any(Payload(0xAC_0000 + index as u64))
+        }
         Some(FailKind::ErrRet) => return Err(ErrTok(0xE0_0000 + index as u64)),
         None => {}
     }
     if let Some(u) = prev {
-        if let PrevUse::Modify(d) = action.prev {
-            let v = u.val();
-            u.set_val(v.wrapping_add(d as u32 + 1));
+        match action.prev {
+            PrevUse::Modify(d) => {
+                let v = u.val();
+                u.set_val(v.wrapping_add(d as u32 + 1));
+            }
+            PrevUse::Replace(d) => {
+                let v = u.val();
+                *u = U::make(v.wrapping_add(d as u32 + 3));
+                let id = u.id();
+                CONV.with(|c| {
+                    if let Some(last) = c.borrow_mut().produced.last_mut() {
+                        *last = id;
+                    }
+                });
+            }
+            _ => {}
         }
     }
     if action.convert {
@@ -138,6 +166,8 @@ fn expected_payload(index: usize, kind: FailKind) -> u64 {
             FailKind::PanicAfterBuild => 0xB1_0000,
             FailKind::ErrRet => 0xE0_0000,
             FailKind::PanicAfterPrevModified => 0xAB_0000,
+            FailKind::PanicAfterPrevReplaced => 0xAC_0000,
+            FailKind::ErrAfterPrevReplaced => 0xEA_0000,
         }
 }
 
@@ -156,7 +186,11 @@ fn run_pair<T: Elem, U: Elem>(sc: &Scenario) -> Result<Stats, Failure> {
         if len == 0 {
             return None;
         }
-        let kind = if kind == FailKind::ErrRet && !sc.try_entry { FailKind::PanicBefore } else { kind };
+        let kind = match kind {
+            FailKind::ErrRet if !sc.try_entry => FailKind::PanicBefore,
+            FailKind::ErrAfterPrevReplaced if !sc.try_entry => FailKind::PanicAfterPrevReplaced,
+            k => k,
+        };
         Some((pick(sel, len), kind))
     });
     let mut input: Vec<T> = Vec::with_capacity(len + sc.spare as usize);
@@ -203,10 +237,10 @@ fn run_pair<T: Elem, U: Elem>(sc: &Scenario) -> Result<Stats, Failure> {
     for i in 0..upto {
         let a = sc.actions[i];
         expected_prev.push(model.last().map(|v| (model.len() - 1, *v)));
-        if let (Some(last), PrevUse::Modify(d)) = (model.last_mut(), a.prev) {
-            if U::STORES_VAL {
-                *last = last.wrapping_add(d as u32 + 1);
-            }
+        match (model.last_mut(), a.prev) {
+            (Some(last), PrevUse::Modify(d)) if U::STORES_VAL => *last = last.wrapping_add(d as u32 + 1),
+            (Some(last), PrevUse::Replace(d)) if U::STORES_VAL => *last = last.wrapping_add(d as u32 + 3),
+            _ => {}
         }
         if a.convert {
             model.push(if U::STORES_VAL { out_val(in_vals[i], i) } else { 0 });
@@ -235,7 +269,9 @@ fn run_pair<T: Elem, U: Elem>(sc: &Scenario) -> Result<Stats, Failure> {
         match (entry.2, exp) {
             (None, None) => {}
             (Some((pid, pval)), Some((oidx, oval))) => {
-                if pval != oval || (U::TRACKED && produced.get(oidx) != Some(&pid)) {
+                let replaced_somewhere = sc.actions.iter().any(|a| matches!(a.prev, PrevUse::Replace(_)))
+                    || matches!(fail, Some((_, FailKind::PanicAfterPrevReplaced)) | Some((_, FailKind::ErrAfterPrevReplaced)));
+                if pval != oval || (U::TRACKED && !replaced_somewhere && produced.get(oidx) != Some(&pid)) {
                     return Err(Failure::new(
                         "c08:prev-output",
                         format!(
@@ -317,13 +353,13 @@ fn run_pair<T: Elem, U: Elem>(sc: &Scenario) -> Result<Stats, Failure> {
         (Ok(Ok(_)), Some(f)) => {
             return Err(Failure::new("c09:failure-swallowed", format!("the converter failed at {:?} but the conversion returned Ok", f)));
         }
-        (Ok(Err(e)), Some((p, FailKind::ErrRet))) => {
-            if e.0 != expected_payload(p, FailKind::ErrRet) {
-                return Err(Failure::new("c09:wrong-error", format!("the caller received error {:?}, the converter returned {:#x}", e, expected_payload(p, FailKind::ErrRet))));
+        (Ok(Err(e)), Some((p, kind))) if kind == FailKind::ErrRet || kind == FailKind::ErrAfterPrevReplaced => {
+            if e.0 != expected_payload(p, kind) {
+                return Err(Failure::new("c09:wrong-error", format!("the caller received error {:?}, the converter returned {:#x}", e, expected_payload(p, kind))));
             }
-            stats.labels.push("err_return");
+            stats.labels.push(if kind == FailKind::ErrRet { "err_return" } else { "err_after_prev_replaced" });
         }
-        (Err(payload), Some((p, kind))) if kind != FailKind::ErrRet => {
+        (Err(payload), Some((p, kind))) if kind != FailKind::ErrRet && kind != FailKind::ErrAfterPrevReplaced => {
             match payload.downcast_ref::<Payload>() {
                 Some(Payload(id)) if *id == expected_payload(p, kind) => {}
                 Some(Payload(id)) => {
@@ -340,6 +376,7 @@ fn run_pair<T: Elem, U: Elem>(sc: &Scenario) -> Result<Stats, Failure> {
                 FailKind::PanicBefore => "panic_before",
                 FailKind::PanicAfterDrop => "panic_after_drop",
                 FailKind::PanicAfterPrevModified => "panic_after_prev_modified",
+                FailKind::PanicAfterPrevReplaced => "panic_after_prev_replaced",
                 _ => "panic_after_build",
             });
         }
@@ -439,7 +476,7 @@ pub fn check_scenario(sc: &Scenario) -> Result<Stats, Failure> {
 pub fn action_strategy() -> impl Strategy<Value = Action> {
     (
         prop::bool::weighted(0.6),
-        prop_oneof![2 => Just(PrevUse::Ignore), 2 => Just(PrevUse::Read), 3 => (0u8..200).prop_map(PrevUse::Modify)],
+        prop_oneof![2 => Just(PrevUse::Ignore), 2 => Just(PrevUse::Read), 3 => (0u8..200).prop_map(PrevUse::Modify), 2 => (0u8..200).prop_map(PrevUse::Replace)],
     )
         .prop_map(|(convert, prev)| Action { convert, prev })
 }
@@ -472,7 +509,9 @@ pub fn scenario_strategy(with_failure: bool) -> impl Strategy<Value = Scenario> 
             Just(FailKind::PanicBefore),
             Just(FailKind::PanicAfterDrop),
             Just(FailKind::PanicAfterBuild),
-            Just(FailKind::PanicAfterPrevModified)
+            Just(FailKind::PanicAfterPrevModified),
+            Just(FailKind::PanicAfterPrevReplaced),
+            Just(FailKind::ErrAfterPrevReplaced)
         ]),
     )
         .prop_map(move |(pair, spare, actions, try_entry, failure)| Scenario {
@@ -492,8 +531,11 @@ pub struct MismatchCase {
     pub from: u8,
     pub to: u8,
     pub len: u8,
-    pub spare: u8,
+    pub spare: u16,
     pub try_entry: bool,
+    /// request the conversion from a destructor that runs while the thread is unwinding
+    #[serde(default)]
+    pub unwinding: bool,
 }
 
 thread_local! {
@@ -509,7 +551,7 @@ fn run_mismatch<T: Elem, U: Elem>(case: &MismatchCase) -> Result<Stats, Failure>
         input.push(T::make(77 + i as u32));
     }
     let ids: Vec<u64> = input.iter().map(|t| t.id()).collect();
-    let res = catch_unwind(AssertUnwindSafe(|| {
+    let do_it = move || catch_unwind(AssertUnwindSafe(|| {
         if case.try_entry {
             try_convert_vec_in_place::<T, U, _, ErrTok>(input, |t, _| {
                 C10_CALLS.with(|c| c.set(c.get() + 1));
@@ -528,6 +570,30 @@ fn run_mismatch<T: Elem, U: Elem>(case: &MismatchCase) -> Result<Stats, Failure>
             .len())
         }
     }));
+    let res = if case.unwinding {
+        // a flush-on-drop guard running during an unrelated panic
+        struct Guard<F: FnOnce() -> std::thread::Result<Result<usize, ()>>>(Option<F>, std::rc::Rc<std::cell::RefCell<Option<std::thread::Result<Result<usize, ()>>>>>);
+        impl<F: FnOnce() -> std::thread::Result<Result<usize, ()>>> Drop for Guard<F> {
+            fn drop(&mut self) {
+                if let Some(f) = self.0.take() {
+                    *self.1.borrow_mut() = Some(f());
+                }
+            }
+        }
+        let slot = std::rc::Rc::new(std::cell::RefCell::new(None));
+        let slot2 = slot.clone();
+        let _ = catch_unwind(AssertUnwindSafe(move || {
+            let _g = Guard(Some(do_it), slot2);
+            panic_any(Payload(0x0E7E));
+        }));
+        let r = slot.borrow_mut().take();
+        match r {
+            Some(r) => r,
+            None => return Err(Failure::new("harness", "the guard did not run")),
+        }
+    } else {
+        do_it()
+    };
     let calls = C10_CALLS.with(|c| c.get());
     let what = format!(
         "{} (size {}, align {}) -> {} (size {}, align {}), len {}",
@@ -633,9 +699,10 @@ pub fn enumerate(prop: &str, max_len: usize) -> (Outcome, u64) {
                 let actions: Vec<Action> = (0..len)
                     .map(|i| Action {
                         convert: (mask >> i) & 1 == 1,
-                        prev: match (i + mask as usize) % 3 {
+                        prev: match (i + mask as usize) % 4 {
                             0 => PrevUse::Modify((i * 5) as u8),
                             1 => PrevUse::Read,
+                            2 => PrevUse::Replace((i * 3) as u8),
                             _ => PrevUse::Ignore,
                         },
                     })
@@ -657,6 +724,9 @@ pub fn enumerate(prop: &str, max_len: usize) -> (Outcome, u64) {
                             (false, FailKind::PanicAfterBuild),
                             (true, FailKind::PanicAfterPrevModified),
                             (false, FailKind::PanicAfterPrevModified),
+                            (true, FailKind::PanicAfterPrevReplaced),
+                            (false, FailKind::PanicAfterPrevReplaced),
+                            (true, FailKind::ErrAfterPrevReplaced),
                         ] {
                             // selector that maps to p
                             let sel = (((p as u32) << 16) / len as u32 + 1).min(65535) as u16;
@@ -724,7 +794,7 @@ pub fn enumerate_c10(max_len: usize) -> Outcome {
             }
             for len in 0..=max_len {
                 for try_entry in [false, true] {
-                    let case = MismatchCase { from, to, len: len as u8, spare: (len % 2) as u8, try_entry };
+                    let case = MismatchCase { from, to, len: len as u8, spare: (len % 2) as u16, try_entry, unwinding: (from + to) as usize % 3 == len % 3 };
                     o.evaluations += 1;
                     side_note(&case);
                     match check_mismatch(&case) {
